@@ -62,12 +62,13 @@ theorem c14_split_on_source (abs : Bool) (segs : List Str.S) :
 
 
 
+
 -- BEGIN PINS (written by bin/mkpins; do not edit by hand)
 /-- the Go functions this property's model and obligations were written against have exactly the
 pinned skeletons (SHA-256 prefix of the atom list) -/
 theorem pinned_skeletons_c14 :
     pinsOk
-    [("Scipipe.#decls", "7633eb8a74616d59"),
+    [("Scipipe.#decls", "08e57e98702ecd70"),
      ("Scipipe.Task_TempDir", "6d565a2ddd3d0eb2"),
      ("Scipipe.applyPathModifiers", "8f319e3baa487b4a"),
      ("Scipipe.getShellCommandPlaceHolderRegex", "2974b35d7f6e39cc"),
